@@ -337,9 +337,31 @@ fn propagate_nullability(operation: &QueryPlan, bp: &mut BufferProvider) -> Rewr
 fn expand_null_inside_aggregator(operation: &QueryPlan, bp: &mut BufferProvider) -> Rewrite {
     match *operation {
         Aggregate { plan, grouping_key, max_index, aggregator, aggregate  } if plan.is_null() => {
-            let null_expanded = bp.named_buffer("expanded_null", EncodingType::NullableF64);
+            // NULL inputs of integer aggregators are integers, so that the partial result has the same type
+            // as the partial results of partitions in which the column has values
+            let expanded_type = match aggregator {
+                Aggregator::SumF64 | Aggregator::MaxF64 | Aggregator::MinF64 => EncodingType::NullableF64,
+                _ => EncodingType::NullableI64,
+            };
+            let null_expanded = bp.named_buffer("expanded_null", expanded_type);
             Rewrite::ReplaceWith(vec![
                 Aggregate {
+                    plan: null_expanded,
+                    grouping_key,
+                    max_index,
+                    aggregator,
+                    aggregate,
+                },
+                Cast {
+                    input: plan,
+                    casted: null_expanded,
+                }
+            ])
+        }
+        CheckedAggregate { plan, grouping_key, max_index, aggregator, aggregate  } if plan.is_null() => {
+            let null_expanded = bp.named_buffer("expanded_null", EncodingType::NullableI64);
+            Rewrite::ReplaceWith(vec![
+                CheckedAggregate {
                     plan: null_expanded,
                     grouping_key,
                     max_index,
